@@ -141,6 +141,9 @@ func runStreamJob(job *Job, res *Result) {
 			if job.Args["only_order"] == "1" && class != "stream-order" {
 				return // this job judges the emission order only (C08); everything else is C17's business
 			}
+			if oc := job.Args["only_classes"]; oc != "" && !has(strings.Split(oc, ","), class) {
+				return // this job judges only the named classes (the rest is C17's business)
+			}
 			if job.Args["only_leftover"] == "1" && class != "adopted-leftovers" {
 				return
 			}
